@@ -88,17 +88,24 @@ Section Net.
   Definition grun (y : sys) (gs : list gevent) : sys := fold_left gstep gs y.
 
   (* executable admissibility of an event (sound for [gadm] of Proofs/NetProofs.v; it does not
-     cover sync streams and adversary-assembled beacons, which the system engine does not use).
+     cover adversary-assembled beacons, which the system engine does not use).
      thr_of / F_of: threshold and adversarial share indices per sharing; polys: the sharings that exist. *)
   Definition now_dom_b (g now : Z) : bool := (now <? g) || ((g <=? now) && (now - g <=? 2 ^ 50)).
   Definition gadm_b (thr_of : Z -> Z) (F_of : Z -> list Z) (polys : list Z) (y : sys) (g : gevent) : bool :=
     match g with
     | GClock d => (0 <=? d) && now_dom_b (c_genesis C) (y_time y + d)
     | GNode j e =>
+        (* a served stream: every beacon in it that verifies is of a round of which a beacon exists *)
+        let served sy := match sy with
+                         | None => true
+                         | Some bs => forallb (fun b => negb (vrec (b_round b) (b_prev b) (b_sig b))
+                                                        || existsb (fun b' => b_round b' =? b_round b) (y_known y)) bs
+                         end in
         match e with
         | EFire | EStop => true
-        | ETick rho None | ETickSF rho None => rho =? current_round (y_time y) (c_period C) (c_genesis C)
-        | ERestart None => true
+        | ETick rho sy | ETickSF rho sy =>
+            (rho =? current_round (y_time y) (c_period C) (c_genesis C)) && served sy
+        | ERestart sy => served sy
         | ETransition _ g' => g_thr g' =? thr_of (g_poly g')
         | _ => false
         end
